@@ -1029,6 +1029,7 @@ package astits
 //@   ensures [C08,C18,C20,C03] fail: (result1 != nil) == (rdFail(recv) != old(rdFail(recv))) && rdFail(recv) >= old(rdFail(recv))
 
 //@ func rewind
+//@   opt sweep:C03
 //@   modifies rdPos(r), rdFail(r)
 //@   ensures [C20,C08] notseekable: err == nil ==> n == 0 || n == -1
 //@   ensures [C20,C08] seeked: err == nil && n == 0 ==> rdPos(r) == 0
@@ -1039,6 +1040,7 @@ package astits
 // peek fills b with the first len(b) bytes of the stream whatever the reader's fragmentation: either nothing is
 // consumed (bufio) or exactly len(b) bytes are - unless the reader failed or the stream ended first.
 //@ func peek
+//@   opt sweep:C03
 //@   requires 0 <= len(b) && len(b) <= cap(b) && len(b) < 0x10000 && allocated(b)
 //@   modifies rdPos(r), rdFail(r), rdEnded(r), elems(b)
 //@   ensures [C08] bufio: !shouldRewind ==> rdPos(r) == old(rdPos(r))
@@ -1049,6 +1051,7 @@ package astits
 // autoDetectPacketSize: on success the reader is left on a packet boundary (at its first byte, or two whole
 // packets further for a reader that can neither peek nor seek), whatever the size of the reads it serves.
 //@ func autoDetectPacketSize
+//@   opt sweep:C03
 //@   requires rdPos(r) == 0
 //@   modifies rdPos(r), rdFail(r), rdEnded(r)
 //@   loop 0 invariant [C08,C18,C03] scan: rangeindex == iter - 1 && iter <= 193 && rdFail(r) == old(rdFail(r))
@@ -1059,6 +1062,7 @@ package astits
 //@   ensures [C18] mono: rdFail(r) >= old(rdFail(r))
 
 //@ func newPacketBuffer
+//@   opt sweep:C03
 //@   requires rdPos(r) == 0
 //@   modifies rdPos(r), rdFail(r), rdEnded(r)
 //@   ensures [C08] size: err == nil ==> pb != nil && fresh(pb) && pb.r == r && pb.s == s && pb.packetSize == ite(packetSize == 0, pb.packetSize, packetSize) && (packetSize == 0 ==> 188 <= pb.packetSize && pb.packetSize <= 192) && len(pb.packetReadBuffer) == 0 && pb.packetReadBuffer == nil
@@ -1069,6 +1073,7 @@ package astits
 // next: the stream is consumed in whole packets (every completed iteration reads exactly packetSize bytes into a
 // buffer of exactly that size), a reader failure is reported, and the skipper is consulted through parsePacket.
 //@ func (*packetBuffer).next
+//@   opt sweep:C03
 //@   opt noframe
 //@   opt noloopframe
 //@   requires pb != nil && 188 <= pb.packetSize && pb.packetSize < 0x10000 && 0 <= len(pb.packetReadBuffer) && len(pb.packetReadBuffer) <= cap(pb.packetReadBuffer) && allocated(pb.packetReadBuffer)
